@@ -99,13 +99,13 @@ func NewPREF64(prefix netip.Prefix, maxInterval time.Duration) *PREF64 {
 	// Calculate the scaled lifetime using MaxRtrAdvInterval.
 	// See https://datatracker.ietf.org/doc/html/rfc8781#section-4.1-2
 	lifetime := maxPref64Lifetime
-	if int(maxInterval.Seconds())*3 < int(lifetime.Seconds()) {
-		lifetimeSeconds := int(maxInterval.Seconds()) * 3
-		if r := int(lifetimeSeconds) % 8; r > 0 {
-			lifetimeSeconds += 8 - r
+	if scaled := 3 * maxInterval; scaled < lifetime {
+		// The option carries the lifetime in units of 8 seconds: round up.
+		if r := scaled % (8 * time.Second); r > 0 {
+			scaled += 8*time.Second - r
 		}
 
-		lifetime = time.Duration(lifetimeSeconds) * time.Second
+		lifetime = scaled
 	}
 
 	return &PREF64{
